@@ -132,3 +132,40 @@ class NodeWithPdo:
     def __init__(self, node_id, pdo):
         self.id = node_id
         self.pdo = pdo
+
+
+class RawVar:
+    """a canopen.variable.Variable whose raw value lives in a field: records every write of the raw view"""
+
+    def __init__(self, od, value):
+        self.od = od
+        self.value = value
+
+    @property
+    def raw(self):
+        rt.emit("raw.get")
+        return self.value
+
+    @raw.setter
+    def raw(self, v):
+        rt.emit("raw.set", v)
+        self.value = v
+
+
+from canopen import variable as _variable
+
+
+class MemVariable(_variable.Variable):
+    """a real canopen Variable (raw / phys / desc / bits views inherited unchanged) backed by a bytes field"""
+
+    def __init__(self, od, data):
+        _variable.Variable.__init__(self, od)
+        self.mem = data
+
+    def get_data(self):
+        rt.emit("get_data")
+        return self.mem
+
+    def set_data(self, data):
+        rt.emit("set_data", rt.snapshot(data))
+        self.mem = bytes(data)
